@@ -92,6 +92,9 @@ def _():
             if ksz not in ks:
                 return None
             out.append((name, w, ks[ksz], "true"))
+    # completeness: every alias declared in the file must have been understood
+    if len(out) != len(re.findall(r"^pub type Kmer\w*\b", t, re.M)):
+        return None
     if len(out) < 1 or "K31" not in ks:
         return None
     out.append(("K31", 64, ks["K31"], "true"))
@@ -366,7 +369,8 @@ def _():
 def _():
     t = src("bitops_avx2.rs")
     cs = re.findall(r"lut_hi \|= 1i64 << \(\(b'(.)' as i64\) - 64i64\);", t)
-    if not cs or not re.search(r"_mm256_set_epi64x\(lut_hi, 0i64, lut_hi, 0i64\)", t):
+    # completeness: every statement that sets a bit of lut_hi must have been understood
+    if not cs or len(cs) != len(re.findall(r"lut_hi \|=", t)) or not re.search(r"_mm256_set_epi64x\(lut_hi, 0i64, lut_hi, 0i64\)", t):
         return None
     return _lean_list([ord(c) for c in cs])
 
